@@ -8,9 +8,9 @@ HARNESS_BUILD_FLAGS = pubrunner.HARNESS_BUILD_FLAGS
 SPEC = {
     "runners": [
         {"kind": "pubscript", "name": "scripted", "module": "CorrC06", "corr": "Run/CorrPub.v (Model/Pub.v vs /repo/publisher, scripted schedules, monitor mon06)",
-         "rule": "scripted: each case = one script (Subscribe / Publish / non-blocking receive stimuli, then a drain) applied to the real publisher package one stimulus at a time with a wait for quiescence after each; the observed trace (receive outcomes, channel lengths, live delivery goroutines, filter invocations) is replayed through the model by Coq, which also evaluates the C06 monitor (every received value was published, visited this subscriber, is accepted by its filter and is new; after the drain every accepted pair has been received). distinct = by (family, stimuli); non-trivial = something was received and either a delivery had to wait for buffer room / a receiver, or there are >= 2 subscribers. Generation: exhaustive stimulus sequences for one and two subscribers + seeded random scripts."},
+         "rule": "scripted: each case = one script (Subscribe / Publish / non-blocking receive stimuli, then a drain) applied to the real publisher package one stimulus at a time with a wait for quiescence after each; the observed trace (receive outcomes, channel lengths, live delivery goroutines, filter invocations) is replayed through the model by Coq, which also evaluates the C06 monitor (every received value was published, visited this subscriber, is accepted by its filter and is new; after the drain every accepted pair has been received). distinct = by (family, stimuli); non-trivial = something was received and either a delivery had to wait for buffer room / a receiver, or there are >= 2 subscribers. Generation: exhaustive stimulus sequences for one and two subscribers (the filtered ones also carry OnFiltered / OnTimeout), a 12-subscriber matrix filter x OnFiltered x OnTimeout, + seeded random scripts with random callbacks."},
         {"kind": "pubstress", "name": "stress", "mode": "c06", "corr": "Go-side monitor (harness/cmd/pubstress -mode c06, -race)",
-         "rule": "free-running (-race): each round = P concurrent publishers x N tagged messages, S subscribers (buffers 0-4, filters by tag, some subscribing while publishing is under way), receivers drain; per subscriber the received multiset must equal {published and accepted} exactly (subset + no duplicates for late subscribers); evaluations = (message, subscriber) pairs checked."},
+         "rule": "free-running (-race): each round = P concurrent publishers x N tagged messages, S subscribers (buffers 0-4, filters by tag, OnFiltered / OnTimeout present or nil at random, some subscribing while publishing is under way), receivers drain; OnFiltered count = rejected messages, OnTimeout never; per subscriber the received multiset must equal {published and accepted} exactly (subset + no duplicates for late subscribers); evaluations = (message, subscriber) pairs checked."},
     ],
     "trusted": ["sync.Map (Range/Store/LoadAndDelete), channels/select, time.After, sync.RWMutex are modelled by contract (atomic steps of Model/Pub.v; Range contract = guards of Visit/PubEnd)",
                 "the harness's placement of internal steps (Enter/Deliver/Timeout/Drop) in observed traces; Coq checks that the placed trace is a behaviour of the model and that nothing required is missing at quiescence",
